@@ -246,7 +246,7 @@ func run(c *vkit.Collector, rng *vkit.Rng, budget int) {
 	}
 	// fixed regression histories first (the witnesses of the refuted theorems)
 	for _, k := range []string{"index", "loop", "equery"} {
-		for s := uint64(1); s <= 3; s++ {
+		for s := uint64(1); s <= 4; s++ {
 			jobs = append(jobs, job{ID: id, Kind: k, Seed: s | 1<<63}) // top bit: corpus history
 			id++
 		}
